@@ -175,7 +175,9 @@ impl<T: Copy + Clone + Number + Signed + std::fmt::Debug> Polynomial<T> {
             t.coeffs = vec![ T::zero(); r.degree()? - v.degree()? + 1 ];
             t.coeffs[ r.degree()? - v.degree()? ] = r.coeffs[ r.degree()? ] / v.coeffs[ v.degree()? ];
             q = q + t.clone();
+            let lead = r.degree()?;
             r = r - ( t * v.clone() );
+            r.coeffs[ lead ] = T::zero(); // cancelled by construction (in floating point only up to rounding)
             r.trim();
             q.trim();
             count += 1;
